@@ -312,6 +312,14 @@ theorem xdeserialize_goes_through_constructor (XO : XOracles) (opts : DeserOpts)
       rcases bindE_eq_ok hk with ⟨args, _, h2⟩
       exact ⟨args, by simpa [constructX] using h2⟩
     | _ => simp at h
+  | structU c fields =>
+    cases d with
+    | dict kvs =>
+      simp only [deserX, PyVal.isNone, Bool.false_and, Bool.false_eq_true, if_false] at h
+      rcases dClassRef_dict_ok kvs _ _ _ x h with ⟨kw, hk⟩
+      rcases bindE_eq_ok hk with ⟨args, _, h2⟩
+      exact ⟨args, by simpa [constructX] using h2⟩
+    | _ => simp at h
   | _ => simp at h
 
 theorem c06_find_some {α} (p : α → Bool) : ∀ (l : List α) (a : α), l.find? p = some a → a ∈ l ∧ p a = true
@@ -438,7 +446,7 @@ theorem decimal_models_agree (XO : XOracles) (o : NumOpts) (v : PyVal)
     cases hd : XO.decOfStr s with
     | none =>
       have := h (.other "outside-model:decimal-str") (by simp [sxDecimal, xConvDecimal, hd])
-      simp [xOutside] at this
+      exact absurd this (by decide)
     | some r =>
       cases r with
       | none => simp [sxDecimal, xConvDecimal, hd, Typedpy.vDecimal, toDecimal, decValue, decErr]
@@ -446,10 +454,10 @@ theorem decimal_models_agree (XO : XOracles) (o : NumOpts) (v : PyVal)
         simp [sxDecimal, xConvDecimal, hd, Typedpy.vDecimal, toDecimal, decValue, vNumber, PyVal.asNum]
   | list xs =>
     have := h (.other "outside-model:decimal-seq") (by simp [sxDecimal, xConvDecimal])
-    simp [xOutside] at this
+    exact absurd this (by decide)
   | tuple xs =>
     have := h (.other "outside-model:decimal-seq") (by simp [sxDecimal, xConvDecimal])
-    simp [xOutside] at this
+    exact absurd this (by decide)
   | bool b =>
     simp [sxDecimal, xConvDecimal, Typedpy.vDecimal, toDecimal, decValue, vNumber, PyVal.asNum]
   | int i =>
